@@ -3,12 +3,15 @@
 (* X05: the code-shaped NocaseDict (NocaseMapImplOps) in lock step with    *)
 (* the requirement machine (NocaseMap); TLC checks Impl => Req for every   *)
 (* call sequence over the universe: bases 1..NB x variants 1..NV + None,   *)
-(* values Vals, update/constructor arguments of up to MaxPairs pairs and   *)
-(* up to one keyword argument, all argument forms.                         *)
+(* values ValU, update arguments of up to MaxPairs pairs (MaxPairsAlt for  *)
+(* the mapping forms and the constructor), up to one keyword argument.     *)
+(* The forms list/tuple/generator of pairs and of objects with a name      *)
+(* attribute have the same abstract meaning ("pairs") and are varied by    *)
+(* the harness when it concretises.                                        *)
 (***************************************************************************)
 EXTENDS NocaseMapImplOps
 
-CONSTANTS NV, ValU, MaxPairs, GenDepth
+CONSTANTS NV, ValU, MaxPairs, MaxPairsAlt, GenDepth, GenMax
 
 VARIABLES si, s, bad, hist
 vars == <<si, s, bad, hist>>
@@ -17,7 +20,6 @@ KeyU == {<<b, v>> : b \in 1..NB, v \in 1..NV} \cup {NoneKey}
 StrKeyU == KeyU \ {NoneKey}
 PairU == {Item(k, v) : k \in KeyU, v \in ValU}
 SeqsUpTo(S, n) == UNION {[1..m -> S] : m \in 0..n}
-PairSeqs == SeqsUpTo(PairU, MaxPairs)
 KwSeqs == {<<>>} \cup {<<Item(k, v)>> : k \in StrKeyU, v \in ValU}
 Forms == {"pairs", "dict", "ncdict"}
 
@@ -40,8 +42,12 @@ Calls ==
   \cup {[C0("order") EXCEPT !.via = o] : o \in {"lt", "ge"}}
   \cup {[C0("copy") EXCEPT !.via = o] :
       o \in {"copy", "copy.copy", "deepcopy", "pickle"}}
-  \cup {[C0(op) EXCEPT !.form = f, !.pairs = p, !.kw = kw, !.nargs = 1] :
-      op \in {"update", "new"}, f \in Forms, p \in PairSeqs, kw \in KwSeqs}
+  \cup {[C0("update") EXCEPT !.form = "pairs", !.pairs = p, !.nargs = 1] :
+      p \in SeqsUpTo(PairU, MaxPairs)}
+  \cup {[C0(op) EXCEPT !.form = f, !.pairs = p, !.nargs = 1] :
+      op \in {"update", "new"}, f \in Forms, p \in SeqsUpTo(PairU, MaxPairsAlt)}
+  \cup {[C0(op) EXCEPT !.form = "pairs", !.pairs = p, !.kw = kw, !.nargs = 1] :
+      op \in {"update", "new"}, p \in SeqsUpTo(PairU, 1), kw \in KwSeqs}
   \cup {[C0(op) EXCEPT !.form = "none", !.kw = kw] :
       op \in {"update", "new"}, kw \in KwSeqs}
   \cup {[C0(op) EXCEPT !.form = "pairs", !.pairs = p, !.nargs = 2] :
@@ -58,14 +64,58 @@ Event(c, r, i2) ==
 Init == si = Impl0 /\ s = InitState /\ bad = {} /\ hist = <<>>
 
 Do(c) == LET rs == ImplStep(si, c)
-             e == Event(c, rs[1], rs[2]) IN
+             e == Event(c, rs[1], rs[2])
+             j == Judge(s, e) IN
          /\ si' = rs[2]
-         /\ bad' = Fails(s, e)
-         /\ s' = Apply(s, e)
+         /\ bad' = j.fails
+         /\ s' = j.next
          /\ hist' = IF GenDepth > 0 THEN Append(hist, c) ELSE hist
 
 Next == bad = {} /\ \E c \in Calls : Do(c)
 Spec == Init /\ [][Next]_vars
+
+(* ---- behaviour emission (tlc -simulate): one random call per step ------ *)
+(* TLC's simulator enumerates all successors of a state, so the generator   *)
+(* draws the components of ONE call with RandomElement (the dummy parameter *)
+(* keeps TLC from caching the draw as a constant).                          *)
+Pick(S, dummy) == RandomElement(S)
+GenOps == <<"setitem", "setitem", "setitem", "getitem", "contains", "delitem",
+            "get", "pop", "pop", "setdefault", "setdefault", "popitem",
+            "clear", "setunnamed", "kbnew", "order", "copy", "update",
+            "update", "update", "new", "fromkeys">>
+GenForms == <<"pairs", "pairs", "dict", "odict", "ncdict", "none", "two">>
+GenPairSeqs == SeqsUpTo(PairU, GenMax)
+GenKeySeqs == SeqsUpTo(KeyU, GenMax)
+GenCall(op, k, v, hasd, form, pairs, keys, kw, flag, ord, via) ==
+  CASE op = "setitem" -> [C0(op) EXCEPT !.k = k, !.val = v]
+    [] op \in {"getitem", "contains", "delitem"} -> [C0(op) EXCEPT !.k = k]
+    [] op \in {"get", "pop", "setdefault"} ->
+         [C0(op) EXCEPT !.k = k, !.hasd = hasd, !.val = IF hasd THEN v ELSE 0]
+    [] op = "setunnamed" -> [C0(op) EXCEPT !.flag = flag]
+    [] op = "order" -> [C0(op) EXCEPT !.via = ord]
+    [] op = "copy" -> [C0(op) EXCEPT !.via = via]
+    [] op \in {"update", "new"} ->
+         CASE form = "none" -> [C0(op) EXCEPT !.form = "none", !.kw = kw]
+           [] form = "two" -> [C0(op) EXCEPT !.form = "pairs", !.nargs = 2,
+                                            !.pairs = SubSeq(pairs, 1, 1)]
+           [] OTHER -> [C0(op) EXCEPT !.form = form, !.pairs = pairs,
+                                     !.kw = kw, !.nargs = 1]
+    [] op = "fromkeys" ->
+         [C0(op) EXCEPT !.form = "pairs", !.nargs = 1, !.val = IF hasd THEN v ELSE 0,
+            !.pairs = [j \in DOMAIN keys |-> Item(keys[j], IF hasd THEN v ELSE 0)]]
+    [] OTHER -> C0(op)
+GenNext ==
+  /\ bad = {}
+  /\ \E op \in {GenOps[Pick(DOMAIN GenOps, hist)]},
+        k \in {Pick(KeyU, hist)}, v \in {Pick(ValU, hist)},
+        hasd \in {Pick(BOOLEAN, hist)},
+        form \in {GenForms[Pick(DOMAIN GenForms, hist)]},
+        pairs \in {Pick(GenPairSeqs, hist)}, keys \in {Pick(GenKeySeqs, hist)},
+        kw \in {Pick(KwSeqs, hist)}, flag \in {Pick(BOOLEAN, hist)},
+        ord \in {Pick({"lt", "le", "gt", "ge"}, hist)},
+        via \in {Pick({"copy", "copy.copy", "deepcopy", "pickle"}, hist)} :
+        Do(GenCall(op, k, v, hasd, form, pairs, keys, kw, flag, ord, via))
+GenSpec == Init /\ [][GenNext]_vars
 
 ImplRefinesReq == bad = {}
 ReqWellFormed == FoldUnique(s)
